@@ -113,6 +113,22 @@ func Harness_C14_Format() {
 	verifCover("end")
 }
 
+// unsigned values above MaxInt64 keep their value
+func Harness_C14_FormatBigUnsigned() {
+	n := verifUint64("big")
+	verifAssume(n >= 1<<63)
+	want := Sprintf1("%d", n)
+	var got string
+	p, msg := tryRun(func() { got = SInterP("%s", n) })
+	verifAssert(!p, "SInterP does not fail on a large unsigned integer: "+msg)
+	verifAssert(got == want, "SInterP renders unsigned integers above MaxInt64 in decimal")
+	verifAssert(len(got) > 0 && got[0] != '-', "an unsigned integer is never rendered negative")
+	var u uint = uint(n)
+	p, _ = tryRun(func() { got = SInterP("%s", u) })
+	verifAssert(!p && got == want, "SInterP renders uint above MaxInt64 in decimal")
+	verifCover("end")
+}
+
 func Harness_C14_FormatFloat() {
 	var got string
 	p, _ := tryRun(func() { got = SInterP("%s", 1.5) })
